@@ -101,6 +101,8 @@ pub struct Shadow {
     pub dead_probe: Vec<(u64, usize, usize)>, // (id, ref addr, size) of objects that died at the last exact GC
     /// start addresses of objects that were found dead at some pause (bounded; C02 evidence of reuse)
     pub dead_starts: HashSet<usize>,
+    /// (start, size) of dead objects of at least one chunk (C31: multi-chunk regions that were freed)
+    pub dead_big: Vec<(usize, usize)>,
 }
 
 impl Shadow {
@@ -125,6 +127,7 @@ impl Shadow {
             gc_kinds: HashMap::new(),
             dead_probe: vec![],
             dead_starts: HashSet::new(),
+            dead_big: vec![],
         }
     }
 
@@ -583,6 +586,9 @@ pub fn on_pause_end() {
             if let Some(o) = sh.objs.remove(&id) {
                 if sh.dead_starts.len() < 200_000 {
                     sh.dead_starts.insert(start_of(o.addr));
+                }
+                if o.size as usize >= (4 << 20) && sh.dead_big.len() < 256 {
+                    sh.dead_big.push((start_of(o.addr), o.size as usize));
                 }
             }
         }
